@@ -409,5 +409,5 @@ fn dyn_struct_name(trait_name: &str) -> String {
 }
 
 pub fn ref_struct_name(elem: &tast::Ty) -> String {
-    format!("ref_{}_x", go_ident(&encode_ty(elem)).to_lowercase())
+    format!("ref_{}_x", go_ident(&encode_ty(elem)))
 }
